@@ -1,2 +1,4 @@
+pub mod c09;
+pub mod c16;
 pub mod c17;
 pub mod c18;
